@@ -731,11 +731,48 @@ class C04(Prop):
             if cand is not None and (m != "v1s" or is_utf8(cand)):
                 cases.append("%s %s" % (m, hx(cand)))
             yield ("trail:" + ("cand" if cand is not None else "nocand"), cases)
+        # pipelined headers (C04_pipeline): the last few header candidates of both versions back to back, followed by
+        # something that is not a header; a receiver that removes exactly the reported bytes reads them one by one
+        if cand is not None and len(cand) <= 300:
+            ring = self.__dict__.setdefault("_ring", {"v1": [b"PROXY UNKNOWN\r\n"], "v2": [v2gen.v2_fixed(0x20, 0, 0)], "n": 0})
+            mine, other = ("v2", "v1") if stream.startswith("v2") else ("v1", "v2")
+            ring[mine] = (ring[mine] + [bytes(cand)])[-3:]
+            ring["n"] += 1
+            if ring["n"] % 5 == 0:
+                j = ring["n"] // 5
+                frames = [ring[mine][-1], ring[other][j % len(ring[other])], ring[mine][0]]
+                if j % 3 == 0:
+                    frames = frames * 2 + [ring[other][-1]]
+                rest = [b"", b"GET / HTTP/1.1\r\n\r\n", SIG[:7], b"PROXY TCP4 1.2.3", bytes(cand[:len(cand) // 2]), b"\x00"][j % 6]
+                cases = ["auto %s" % hx(f) for f in frames] + ["auto %s" % hx(rest), "pipe %s" % hx(b"".join(frames) + rest)]
+                yield ("pipe", cases)
 
     def project(self, case, line):
-        return acc(line)
+        return line if case.startswith("pipe ") else acc(line)
+
+    def classify(self, case, line):
+        if case.startswith("pipe "):
+            m = re.match(r"P=(\S+) R=(\d+)", line)
+            if not m:
+                return "pipe " + line[:12]
+            kinds = "" if m.group(1) == "-" else "".join(f[0] for f in m.group(1).split(","))
+            return "pipe frames=%s rest=%s" % (kinds or "none", "0" if m.group(2) == "0" else "some")
+        return Prop.classify(self, case, line)
 
     def oracle(self, tag, cases, impl, spec, meta):
+        if tag == "pipe":
+            if "PANIC" in impl:
+                return "parser panicked"
+            frames = [expr_bytes(c.split(" ")[1]) for c in cases[:-2]]
+            rest = expr_bytes(cases[-2].split(" ")[1]) if cases[-2].split(" ")[1] != "-" else b""
+            oks = [acc(i) for i in impl[:-2]]
+            if not all(a.startswith(("V1 OK ", "V2 OK ")) for a in oks) or acc(impl[-2]).startswith(("V1 OK ", "V2 OK ")):
+                return None
+            want = "P=%s R=%d" % (",".join("%s:%d" % (a[1], len(f)) for a, f in zip(oks, frames)), len(rest))
+            if impl[-1] != want:
+                return ("pipelined headers are not read one by one: each of %d headers is accepted on its own, but the receive loop "
+                        "over their concatenation gives %s instead of %s" % (len(frames), impl[-1][:120], want[:120]))
+            return None
         a0 = acc(impl[0])
         if impl[0] == "PANIC":
             return "parser panicked"
